@@ -56,6 +56,7 @@ namespace Spectra {
 ///	*** EXAMPLE
 /// \code{.cpp}
 /// #include <Spectra/contrib/SymSparseEigsSolverLOBPCG.h>
+#include "../Util/VerifHook.h"
 ///
 ///	// random A
 ///	Matrix a;
@@ -83,6 +84,7 @@ template <typename Scalar = long double>
 class LOBPCGSolver
 {
 private:
+    SPECTRA_VERIF_FRIEND
     typedef Eigen::Matrix<Scalar, Eigen::Dynamic, Eigen::Dynamic> Matrix;
     typedef Eigen::Matrix<Scalar, Eigen::Dynamic, 1> Vector;
 
